@@ -306,9 +306,15 @@ impl TransactionRequest {
             payments: payments.into_iter().enumerate().collect(),
         };
 
-        // Enforce validity requirements.
+        // Enforce validity requirements: the request must survive rendering and parsing
+        // unchanged (e.g. a free-form parameter named like a typed one does not).
         if !request.payments.is_empty() {
-            TransactionRequest::from_uri(&request.to_uri())?;
+            let uri = request.to_uri();
+            if TransactionRequest::from_uri(&uri)? != request {
+                return Err(Zip321Error::ParseError(format!(
+                    "Request does not round-trip through its URI encoding: {uri}"
+                )));
+            }
         }
 
         Ok(request)
